@@ -174,9 +174,9 @@ class C15(CoordMixin, Prop):
             if k == "cfg":
                 strategy = t[4]
                 pend = set()
-            if k in ("start", "exec") and prev is not None and len(t) > 1 and t[1] in prev["active"]:
+            if k in ("start", "exec", "cell") and prev is not None and len(t) > 1 and t[1] in prev["active"]:
                 break                                   # id reuse: outside the quantifier
-            if k in ("exec", "shutdown"):
+            if k in ("exec", "cell", "shutdown"):
                 trig_at = idx if trig_at is None else trig_at       # outside the fragment covered by c15_exact_partial
             # ---- trigger events of the known finding (reference level: pending waits and owners only) ----
             if k == "acq" and info.get("result") in ("acquired", "reentrant", "preempted") and prev is not None:
